@@ -48,6 +48,10 @@ var c08Templates = []c08T{
 	{"map iteration order", "", `%{'b: mark(1), 'a: mark(2)}@{|kv| kv}`, 2, `[["b", 1], ["a", 2]]`},
 	{"keyword arguments bound by name", `f3 := {|p: 0, q: 0, r: 0| [p, q, r]}`, `f3(r: mark(1), p: mark(2), q: mark(3))`, 3, `[2, 3, 1]`},
 	{"three duplicate keyword arguments", `g := {|x: 0| x}`, `g(x: mark(1), x: mark(2), x: mark(3))`, 3, `1`},
+	{"keyword arguments written on several lines", `f4 := {|aa: 0, zz: 0| [aa, zz]}`, "f4(\n  zz: mark(1),\n  aa: mark(2)\n)", 2, `[2, 1]`},
+	{"duplicate keyword arguments on several lines", `g := {|x: 0| x}`, "g(\n  x: mark(2 - 1),\n  x: mark(1 + 1)\n)", 2, `1`},
+	{"receiver, arguments and keyword arguments on several lines", `o := {bar: m{|x, p: 0, q: 0| [x, p, q]}}`, "o.bar(mark(1),\n  q: mark(2),\n  p: mark(3))", 3, `[1, 3, 2]`},
+	{"literals written on several lines", "", "[\n  {\n    zz: mark(1),\n    aa: mark(2)\n  },\n  %{\n    mark(3): mark(4),\n    mark(5): mark(6)\n  }\n]", 6, `[{"aa": 2, "zz": 1}, %{3: 4, 5: 6}]`},
 	{"nested call arguments", `f := {|a, b, x: 0, y: 0, z: 0| [a, b, x, y, z]}`, `[f(mark(1), mark(2), x: mark(3)), f(mark(4), mark(5), y: mark(6), z: mark(7))]`, 7, `[[1, 2, 3, 0, 0], [4, 5, 0, 6, 7]]`},
 }
 
